@@ -355,6 +355,15 @@ NonOverlapConstraints::getCurrSubConstraintAlternatives(vpsc::Variables vs[])
 
     // Take the first in the list.
     ShapePairInfo& info = pairInfoList.front();
+    if (info.processed)
+    {
+        // Processed pairs are always moved to the back of the list, so
+        // finding one at the front means every pair has been dealt with,
+        // including pairs whose overlap could not be resolved.  Without
+        // this check such a pair would be retried forever.
+        _currSubConstraintIndex = pairInfoList.size();
+        return alternatives;
+    }
     if (pairInfoListSorted == false)
     {
         // Only need to compute if not sorted.
